@@ -20,6 +20,7 @@ RULE = (
     "non-trivial = max_nodes set and more batches than max_nodes, or a batch with more jobs than workers; distinct "
     "by hash of (scenario, schedule)"
 )
+RULE += " Later additions (DESIGN.md 9): " + 'persistent sbatch failures, squeue outages of 1-3 retry windows, poll intervals of 1 s / 1 min / 5 min, up to 2 operator rounds bound to the end of batches.'
 ASSUMPTIONS = C.WORLD_ASSUMPTIONS
 setup, teardown = C.setup, C.teardown
 
